@@ -39,3 +39,4 @@ def run(ctx, rep, tier):
         steplen.soc_scalar_cap(rep, F, tag, 'C15.R6')
         steplen.soc_linear_case(rep, F, tag, 'C15.R7')
         c14.reflection_symmetry(rep, F, E, tag, 'C15.R8')
+        c14.membership_guards(rep, F, tag, 'C15.R9')
